@@ -372,6 +372,10 @@ func c19Judge(c *core.Ctx, k c19case, res *core.ShardResult) (vs []core.Violatio
 			bad("fmt-result-parses", "the rewritten spokfile does not parse: %v", err)
 			return
 		}
+		if rel, err := filepath.Rel(root, spokPath); err == nil && before[rel].Mode != after[rel].Mode {
+			bad("fmt-rewrites-only-content", "--fmt changed the permissions of the spokfile from %o to %o", before[rel].Mode, after[rel].Mode)
+			return
+		}
 	default:
 		allowCache = true
 	}
